@@ -191,8 +191,13 @@ def _expr_sources(e, scope, env, K, ds):
     raise AssertionError(k)
 
 
+_KSTAR = [None]  # when set: the knowledge map used for * expansion (C04: session knowledge expands * only with a provider in use)
+
+
 def _star(rels, K):
     out = []
+    if _KSTAR[0] is not None:
+        K = _KSTAR[0]
     for r in rels:
         if r.kind == "base":
             if r.table in K:
@@ -238,7 +243,38 @@ def eval_query(q, env, K, ds):
     return res
 
 
-def columns(st, K=None, default_schema=None):
+def columns(st, K=None, default_schema=None, Kstar=None):
+    _KSTAR[0] = Kstar
+    try:
+        return _columns(st, K, default_schema)
+    finally:
+        _KSTAR[0] = None
+
+
+def output_names(st, K=None, default_schema=None, Kstar=None):
+    """column names the statement gives its target (used as session knowledge by later statements); '*' excluded"""
+    _KSTAR[0] = Kstar
+    try:
+        if st["kind"] not in ("insert", "ctas", "view", "select_into"):
+            return []
+        cols = eval_query(st["q"], {}, K or {}, default_schema)
+        names = [n for n, _ in cols]
+        Kt = _KSTAR[0] if _KSTAR[0] is not None else (K or {})
+        tgt = fq(st["target"], default_schema)
+        if st.get("collist") and len(st["collist"]) == len(cols):
+            names = list(st["collist"])
+        elif st["kind"] == "insert" and tgt in Kt and len(Kt[tgt]) == len(cols):
+            names = list(Kt[tgt])
+        out = []
+        for n in names:
+            if n != "*" and n not in out:
+                out.append(n)
+        return out
+    finally:
+        _KSTAR[0] = None
+
+
+def _columns(st, K=None, default_schema=None):
     K = K or {}
     ds = default_schema
     k = st["kind"]
@@ -246,13 +282,14 @@ def columns(st, K=None, default_schema=None):
     if k in ("bare", "delete", "truncate"):
         return pairs
     tgt = fq(st["target"], ds)
+    Kt = _KSTAR[0] if _KSTAR[0] is not None else K  # knowledge that needs a provider in use (session tables, C04)
     if k in ("insert", "ctas", "view", "select_into"):
         cols = eval_query(st["q"], {}, K, ds)
         names = [n for n, _ in cols]
         if st.get("collist") and len(st["collist"]) == len(cols):
             names = list(st["collist"])  # an explicit column list always wins
-        elif k == "insert" and tgt in K and len(K[tgt]) == len(cols):
-            names = list(K[tgt])  # known target columns name the positions of an INSERT without column list
+        elif k == "insert" and tgt in Kt and len(Kt[tgt]) == len(cols):
+            names = list(Kt[tgt])  # known target columns name the positions of an INSERT without column list
         for n, (_, srcs) in zip(names, cols):
             for s in srcs:
                 pairs.add((s, f"{tgt}.{n}"))
